@@ -33,6 +33,13 @@ def run(ctx):
     C.require_locals(ctx, ctx.func('ArchSemantics.assign_optimal_throughput'), ['INC', 'port_sums', 'instr_ports', 'max_port_idx', 'min_port_idx', 'kernel', 'instruction_form', 'idx', 'k_tmp', 'best_kernel', 'best_kernel_tp', 'multiple_assignments', 'cycles'])
     P = balancer_parts(ctx)
     f, sl, ul = P["f"], P["step_loop"], P["uop_loop"]
+    # ---- P0: the balancer only moves pressure between the ports of the micro-ops in port_uops; pressure that the uniform
+    # split put on any other port stays there, so the result can be worse OR better than any admissible schedule
+    from . import c08
+    ctx.rule("P0", "starting point: the uniform pressure of a composed form lies on the ports of the micro-ops kept in port_uops (C08-R1)")
+    C.embed(ctx, "C08", c08.composition_rule, "P0", "composed form (C08-R1)",
+            "pressure and micro-ops of a composed instruction come from different sources: the balancer cannot move the share that lies "
+            "on ports outside port_uops", ctx.func("ArchSemantics.assign_tp_lt").where())
     # ---- P1 pairing and direction (re-evaluated here: a premise of this lemma)
     ctx.rule("P1", "each step moves one quantum from the max-loaded to the min-loaded admissible port")
     direct = [n for n in sl.body if isinstance(n, ast.AugAssign) and isinstance(n.target, ast.Subscript) and U(n.target.value) == "instr_ports"]
